@@ -362,6 +362,46 @@ func (f *frame) applyContract(sp *FuncSpec, callee *ssa.Function, args []Val, pc
 	for _, h := range mods {
 		c.havocHeap(st, h)
 	}
+	// an argument that points INTO another object (field of struct type, slice
+	// element): the callee's writes to "T.f" land in the container, not in the
+	// H$T$f heap of free-standing T objects. Give the pointed-to struct an
+	// arbitrary new value; the callee's postconditions then constrain it.
+	for _, a := range args {
+		if a.P == nil || a.Typ == nil {
+			continue
+		}
+		if stt, ok := deref(a.Typ).Underlying().(*types.Struct); ok {
+			touched := !sp.HasMod
+			for i := 0; i < stt.NumFields() && !touched; i++ {
+				hn := c.fieldHeapName(deref(a.Typ), stt.Field(i).Name())
+				for _, m := range mods {
+					if m == hn {
+						touched = true
+					}
+				}
+			}
+			if touched {
+				oldv := f.load(st, a)
+				nv := c.fresh("interior_"+typeName(deref(a.Typ)), c.sortOf(deref(a.Typ)))
+				// fields outside the callee's modifies clause keep their value
+				if sp.HasMod {
+					for i := 0; i < stt.NumFields(); i++ {
+						hn := c.fieldHeapName(deref(a.Typ), stt.Field(i).Name())
+						inMods := false
+						for _, m := range mods {
+							if m == hn {
+								inMods = true
+							}
+						}
+						if !inMods {
+							c.addHyp(Eq(c.structField(deref(a.Typ), stt, nv, i), c.structField(deref(a.Typ), stt, oldv.T, i)))
+						}
+					}
+				}
+				f.store(st, a, nv)
+			}
+		}
+	}
 	c.bumpAlloc(st) // the callee may have allocated
 	for _, gi := range sp.GhostInits {
 		// the callee resets and then sets this flag: its value after the call is
